@@ -104,7 +104,20 @@ func main() {
 	leanOut := flag.String("lean", "", "Generated.lean to write")
 	jsonOut := flag.String("json", "", "facts.json to write")
 	flag.StringVar(&repo, "repo", "/repo", "repository root")
+	translatedOut := flag.String("translated", "", "GeneratedFns.lean to write (Go functions translated to Lean, see translate.go)")
 	flag.Parse()
+
+	if *translatedOut != "" {
+		text, lostFns := translateAll(repo)
+		for _, k := range sortedKeys(lostFns) {
+			lost["translate:"+k] = lostFns[k]
+			fmt.Fprintf(os.Stderr, "translate: LOST %s: %s\n", k, lostFns[k])
+		}
+		if err := os.WriteFile(*translatedOut, []byte(text), 0644); err != nil {
+			fmt.Fprintln(os.Stderr, err)
+			os.Exit(1)
+		}
+	}
 
 	// ---------------- query.go: cache keys, eval shape, group-by ----------------
 	tags := map[string]int{}
